@@ -100,6 +100,21 @@ def gen_cases(ctx):
                 rng.shuffle(cs)
                 cases.append({"op": "gpu_gate", "kind": kind, "params": rand_params(rng, kind), "n": n, "ts": list(ts), "cs": cs,
                               "v": rand_vec32(rng, n, "generic"), "orders": orders, "thr": 10})
+    # amplitude vectors with structure: exact zeros next to purely real and purely imaginary entries (what X / Y / S leave behind on a
+    # basis state), for every kernel; and every quarter / eighth turn of either sign for the parametrised ones
+    from ..gatecases import rand_vec
+    def axis32(n): return [float2bits(f32(bits2float(x))) for x in rand_vec(rng, n, "axis")]
+    for kind in GPU_KINDS:
+        for n in (2, 3, 4):
+            pl = placements(n, kind); rng.shuffle(pl)
+            for ts, cs in pl[:6]:
+                cases.append({"op": "gpu_gate", "kind": kind, "params": rand_params(rng, kind), "n": n, "ts": list(ts), "cs": list(cs), "v": axis32(n), "orders": orders, "thr": 10})
+    for kind in ("P", "RX", "RY", "RZ"):
+        for ang in (math.pi / 2, -math.pi / 2, math.pi / 4, -math.pi / 4, math.pi, -math.pi, 0.0, 3 * math.pi / 2, -3 * math.pi / 2, 2 * math.pi):
+            n = rng.choice([2, 3])
+            for ts, cs in rng.sample(placements(n, kind), 2):
+                cases.append({"op": "gpu_gate", "kind": kind, "params": [float2bits(ang)], "n": n, "ts": list(ts), "cs": list(cs),
+                              "v": rand_vec32(rng, n, "generic"), "orders": orders, "thr": 10})
     # angles far beyond one turn: cos/sin must be taken in double precision and only then narrowed to binary32
     # (narrowing the angle first loses |angle| * 2^-24 radians of phase)
     for kind in GPU_KINDS:
